@@ -438,6 +438,13 @@ Print Assumptions C07_file_index_as_coded.
    __getstate__ / __setstate__ under pyxel/{pipelines,detectors,data_structure,outputs,exposure,observation,
    calibration}.  When every attribute of every hooked class comes back (hooks_faithful), the pipeline a worker
    receives is the caller's, pickled or not -- for every pipeline (any models, any enabled flags) *)
+(* deep copies (the sequential path, the synchronous and the threaded scheduler) do not go through the hooks of a class
+   that has a __deepcopy__ of its own: whatever those hooks do, the run works on the caller's pipeline *)
+Theorem C07_deep_copies_bypass_hooks :
+  forall hooks ms, forallb hk_deepcopy hooks = true -> worker_models hooks false ms = Some ms.
+Proof. exact worker_models_direct. Qed.
+Print Assumptions C07_deep_copies_bypass_hooks.
+
 Theorem C07_worker_receives_the_pipeline :
   forall hooks, hooks_faithful hooks = true ->
   forall (pickled : bool) (ms : list minst), worker_models hooks pickled ms = Some ms.
@@ -472,14 +479,17 @@ Print Assumptions C07_unrestored_attribute_is_lost.
 
 Example C07_worker_nonvacuous :
   let ms := [mkMI 3 true; mkMI 5 false; mkMI 0 true] in
-  let good := [mkHook "ModelGroup" [("_log", ARecreated); ("_name", AWhole); ("models", AWhole)]]%string in
-  let forgetful := [mkHook "ModelGroup" [("_log", ARecreated); ("_name", AWhole);
-                                         ("models", ARebuilt [FFunc; FName; FArgs])]]%string in
+  let good := [mkHook "ModelGroup" true [("_log", ARecreated); ("_name", AWhole); ("models", AWhole)]]%string in
+  let forgetful := [mkHook "ModelGroup" true [("_log", ARecreated); ("_name", AWhole);
+                                              ("models", ARebuilt [FFunc; FName; FArgs])]]%string in
   hooks_faithful good = true /\ worker_models good true ms = Some ms /\ executed ms = [3; 0]%Z
   /\ hooks_faithful forgetful = false
   /\ option_map executed (worker_models forgetful true ms) = Some [3; 5; 0]%Z
   /\ worker_models forgetful false ms = Some ms
-  /\ worker_models [mkHook "ModelGroup" [("_name", AWhole); ("models", AMissing)]]%string true ms = None.
+  /\ worker_models [mkHook "ModelGroup" true [("_name", AWhole); ("models", AMissing)]]%string true ms = None
+  (* the same hooks on a class WITHOUT a __deepcopy__ of its own: every deep copy is rebuilt too *)
+  /\ option_map executed (worker_models [mkHook "ModelGroup" false [("models", ARebuilt [FFunc; FName; FArgs])]]%string
+                                        false ms) = Some [3; 5; 0]%Z.
 Proof. vm_compute. repeat split; reflexivity. Qed.
 
 (* the code AS IT IS NOW: every hook restores every attribute __init__ sets *)
